@@ -144,8 +144,13 @@ def content_jobs(rnd, tier):
             rows = odsio.sheet_rows(h, lay, rnd, order=tuple(orders[(n + rep) % 6]), blanks=tuple(rnd.randrange(3) for _ in range(4)), row_perm=perm, decoys=rnd.random() < 0.7)
             for r in rows:
                 r.pop("pos", None)
-            jobs.append({"kind": "sheet", "K": K_REAL, "L": lay, "rows": rows, "conc": {"U": U, "P": P, "case": rnd.choice(["upper", "lower", "title"])},
-                         "tag": f"content:{name}"})
+            conc = {"U": U, "P": P, "case": rnd.choice(["upper", "lower", "title"])}
+            if (n + rep) % 3 == 1:
+                days = sorted({(x["t"] + x["off"]) // 86400 for x in h})
+                conc["from_day"] = days[len(days) // 2] + (n % 2)          # a from-date (and sometimes a to-date) inside the history
+                if n % 4 == 1:
+                    conc["to_day"] = days[-1] - 1 if days[-1] - 1 >= conc["from_day"] else None
+            jobs.append({"kind": "sheet", "K": K_REAL, "L": lay, "rows": rows, "conc": conc, "tag": f"content:{name}"})
     return jobs, stats
 
 
